@@ -233,7 +233,7 @@ def _solve(solver, when, method, allow_neg, mon, hist, sigs, fam, rhs, extra=Non
         solver.solve_stress(when=when, **kw)
     except Exception as exc:
         import traceback
-        if method == "fix_stress" and isinstance(exc, ValueError):
+        if method == "fix_stress" and isinstance(exc, (ValueError, IndexError)):
             mon.fail("F-FIXSTRESS", "every selectable back-end returns a result", exc=repr(exc)[:160])
         else:
             mon.fail("solve-raises", "every selectable back-end returns a result", exc=repr(exc)[:200], method=method,
